@@ -748,11 +748,31 @@ HandoffBody(HThread *h, int gate_seq, int64_t probe, uint64_t uid)
                   id, prev));
     }
     g_slot_claims[id].fetch_add(1, kRlx);
+    {
+      // C15: every heartbeat handed out to earlier owners of this ID is expired by now
+      std::lock_guard<std::mutex> g{g_hist_mtx[id]};
+      size_t alive = 0;
+      for (auto &wp : g_hist[id]) alive += wp.expired() ? 0 : 1;
+      if (!g_hist[id].empty()) g_reuse_total.fetch_add(1, kRlx);
+      if (alive != 0) {
+        Violate("C15", "id-reused-while-an-earlier-owners-heartbeat-is-unexpired",
+                Fmt("capacity=%zu handoff: id %zu was handed to thread uid=%" PRIu64 " although %zu heartbeat(s) of earlier owners are not expired", kN, id, uid, alive));
+      }
+      if (g_hist[id].size() > 8) g_hist[id].erase(g_hist[id].begin(), g_hist[id].begin() + 4);
+      g_hist[id].push_back(IDManager::GetHeartBeat());
+    }
+    if (IDManager::GetHeartBeat().expired()) {
+      Violate("C15", "heartbeat-of-running-thread-expired", Fmt("capacity=%zu handoff: the heartbeat of the running thread uid=%" PRIu64 " (id %zu) is expired", kN, uid, id));
+    }
   }
   if (!h->transient) {
     g_ho_holding.fetch_add(1, kMo);
     h->state.store(1, kMo);
-    while (h->release.load(std::memory_order_acquire) == 0) sched_yield();
+    if (kN > 16) {
+      h->release.wait(0, std::memory_order_acquire);  // large tables: up to N + 3 waiting threads must not burn the cores
+    } else {
+      while (h->release.load(std::memory_order_acquire) == 0) sched_yield();
+    }
     if (h->skew_ns != 0) SpinNs(h->skew_ns);
     if (IDManager::GetThreadID() != id) Violate("C05", "id-not-stable", Fmt("handoff: %zu then %zu", id, IDManager::GetThreadID()));
     g_ho_holding.fetch_sub(1, kMo);
@@ -889,9 +909,9 @@ RunHandoff()
     // fire: exits and the gate in random order
     if (r.Chance(1, 2)) {
       g_ho_gate_seq.store(gate_seq, std::memory_order_release);
-      for (auto *h : exiting) h->release.store(1, std::memory_order_release);
+      for (auto *h : exiting) h->release.store(1, std::memory_order_release), h->release.notify_all();
     } else {
-      for (auto *h : exiting) h->release.store(1, std::memory_order_release);
+      for (auto *h : exiting) h->release.store(1, std::memory_order_release), h->release.notify_all();
       g_ho_gate_seq.store(gate_seq, std::memory_order_release);
     }
     if (!settle(fills ? "a-claim-that-fills-the-table-raced-with-an-exit" : (table_full_before ? "exits-while-the-table-was-full" : "table-not-full"))) break;
@@ -901,7 +921,7 @@ RunHandoff()
       // start afresh: everybody exits
       for (auto &h : alive) {
         h->released = true;
-        h->release.store(1, std::memory_order_release);
+        h->release.store(1, std::memory_order_release), h->release.notify_all();
         leaving.push_back(std::move(h));
       }
       alive.clear();
@@ -910,7 +930,7 @@ RunHandoff()
     }
   }
   for (auto &h : alive) {
-    h->release.store(1, std::memory_order_release);
+    h->release.store(1, std::memory_order_release), h->release.notify_all();
     leaving.push_back(std::move(h));
   }
   alive.clear();
@@ -922,6 +942,7 @@ RunHandoff()
   res.Add("exits_while_threads_were_waiting_for_an_id", exits_with_waiters);
   res.Add("cascades_of_transient_claimers", cascades);
   res.Add("handoff_resets", resets);
+  res.Add("id_reuses_checked", g_reuse_total.load());
   res.counters["evaluations"] = done;
   for (size_t i = 0; i < kN && i < 64; ++i) {
     if (g_slot_claims[i].load()) res.signatures.push_back(Fmt("handoff:N=%zu:slot-%zu-claimed", kN, i));
@@ -964,6 +985,7 @@ thread_local uint64_t tl_gap_epoch = 0;          // global epoch observed when t
 thread_local bool tl_stale_publication = false;  // the epoch published by the last enter was stale by >= 2
 thread_local uint64_t tl_step_upper = 0;  // upper bits of the oldest list node the current lookup may stand on without protecting it (0: no lookup)
 thread_local uint64_t tl_entered_epoch = 0;  // value published by this thread's last EnterEpoch
+thread_local uint64_t tl_lookup_begin_epoch = 0;  // global epoch right before the library loads the list head
 thread_local bool tl_long_lookup = false;
 thread_local bool tl_in_gpe = false;
 thread_local int tl_worker = -1;
@@ -982,18 +1004,35 @@ CurEm()
 // A list node covers the epochs [B, B + 255] (B = its upper bits) and is unlinked by the forward that starts at global
 // epoch B + 256 unless a guard pins one of its epochs; the global epoch is published after the unlinking.  The lookup
 // of a guard with epoch e walks from the newest node down to the node of e; the oldest node it can stand on without
-// protecting it has B = (e & ~255) + 256.  So a lookup can have been standing on a node that was retired under it iff
-// the global epoch reached (e & ~255) + 512 before the lookup returned.  The classification deliberately reads no list
-// node memory: a lookup stalled between loading a node pointer and the next hook would make the hook read freed memory.
+// protecting it has B = (e & ~255) + 256.  A node can only be retired under the traversal by a forward that starts
+// while the traversal is under way, i.e. from a multiple of 256 M with M >= (e & ~255) + 512 and
+// (global epoch when the lookup began) <= M <= (global epoch when it returned).  "When the lookup began" is sampled by
+// the post-delay callback of the hook in front of the lookup, i.e. after any injected stall there and before the
+// library loads the list head - so a stall *before* the lookup (harmless in the unchanged code) is not classified as a
+// stall inside it.  The classification reads no list node memory: a lookup stalled between loading a node pointer and
+// the next hook would make the hook read freed memory.
 void
 ClassifyLookup()
 {
   const auto *em = CurEm();
   if (em == nullptr || tl_step_upper == 0 || tl_long_lookup) return;
-  if (em->GetCurrentEpoch() >= tl_step_upper + EpochManager::kCapacity) {
+  constexpr uint64_t kCap = EpochManager::kCapacity;
+  const auto first_m = std::max<uint64_t>(tl_step_upper + kCap, (tl_lookup_begin_epoch + kCap - 1) / kCap * kCap);
+  if (em->GetCurrentEpoch() >= first_m) {
     tl_long_lookup = true;
     g_long_lookup_stalls.fetch_add(1, kRlx);
   }
+}
+
+void
+PointPostCb(int id, const void *)
+{
+  if (id != ::dbgroup::verif::kEpochGuardCreated) return;
+  const auto *em = CurEm();
+  if (em == nullptr) return;
+  tl_lookup_begin_epoch = em->GetCurrentEpoch();
+  // a lookup for the epoch published last begins: upper bits of the oldest node it may stand on unprotected
+  tl_step_upper = (tl_entered_epoch & ~static_cast<uint64_t>(EpochManager::kCapacity - 1)) + EpochManager::kCapacity;
 }
 
 void
@@ -1024,10 +1063,6 @@ PointCb(int id, const void *obj)
       }
       break;
     }
-    case kEpochLookupBegin:
-      // a lookup for the epoch published last begins: upper bits of the oldest node it may stand on unprotected
-      tl_step_upper = (tl_entered_epoch & ~static_cast<uint64_t>(EpochManager::kCapacity - 1)) + EpochManager::kCapacity;
-      break;
     case kEpochLookupStep: ClassifyLookup(); break;
     case kEpochForwardBegin: g_fwd_begin_epoch[tl_duo_m > 0 ? 1 : 0].store(em->GetCurrentEpoch(), kMo); break;
     default: break;
@@ -1272,6 +1307,7 @@ int
 Run()
 {
   g_point_cb = &PointCb;
+  g_point_post_cb = &PointPostCb;
   struct sigaction sa {};
   sa.sa_sigaction = &SegvHandler;
   sa.sa_flags = SA_SIGINFO;
@@ -1557,13 +1593,12 @@ RunStart()
   std::atomic<EpochManager *> cur_em{nullptr};
   std::vector<uint64_t> epochs(16, 0);
   std::vector<uint64_t> skew(16, 0);
-  std::atomic<uint64_t> part_mask{0};
   std::atomic<uint64_t> release_w[16];
   for (auto &x : release_w) x.store(0);
   auto body = [&](int w, uint64_t round) {
-    auto *em = cur_em.load(kMo);
     while (gate.load(std::memory_order_acquire) < round) {
     }
+    auto *em = cur_em.load(kMo);
     SpinNs(skew[w]);
     {
       EpochGuard g = em->CreateEpochGuard();
@@ -1581,11 +1616,13 @@ RunStart()
       (void)IDManager::GetThreadID();
       uint64_t seen = 0;
       while (true) {
+        // one word carries the round number and the participants: a worker that is slow to look must not combine the
+        // round it woke up for with the participants of a later round
         uint64_t a = 0;
         while ((a = announce.load(std::memory_order_acquire)) == seen && !quit.load(kRlx)) sched_yield();
         if (quit.load(kRlx)) break;
         seen = a;
-        if (part_mask.load(kMo) & (1ULL << w)) body(w, a);
+        if ((a & 0xFFFF) & (1ULL << w)) body(w, a >> 16);
       }
       PreemptUnregister();
     });
@@ -1615,7 +1652,6 @@ RunStart()
     std::vector<std::thread> ths;
     if (fresh) {
       ++fresh_rounds;
-      part_mask.store(0, kMo);
       for (int w = 0; w < cnt; ++w) {
         if (!(mask & (1ULL << w))) continue;
         ths.emplace_back([&, w, round] {
@@ -1625,8 +1661,7 @@ RunStart()
         });
       }
     } else {
-      part_mask.store(mask, kMo);
-      announce.store(round, std::memory_order_release);
+      announce.store((round << 16) | mask, std::memory_order_release);
       SpinNs(3000);  // let the participants reach the barrier
     }
     gate.store(round, std::memory_order_release);
@@ -1910,6 +1945,7 @@ int
 Run()
 {
   g_point_cb = &PointCb;
+  g_point_post_cb = &PointPostCb;
   struct sigaction sa {};
   sa.sa_sigaction = &SegvHandler;
   sa.sa_flags = SA_SIGINFO;
